@@ -49,7 +49,7 @@ void h_list_clear(void) {
 #endif
   COVER(count0 == 0);
 #ifdef CANARY_LIFE_CLEAR
-  CHECK(g_destroy_calls == count0 + (count0 == 3), "C06: clear destroys every pool exactly once");
+  CHECK(g_destroy_calls == count0 + (count0 == 1), "C06: clear destroys every pool exactly once");
 #else
   CHECK(g_destroy_calls == count0 && g_destroy_ok, "C06: clear destroys every pool exactly once, in table order, with the document's allocator");
 #endif
